@@ -1,6 +1,432 @@
-// C16/C17 unit part: scripted workload through the real Rock::SwapDir with a recording DiskFile (placeholder)
+// C16/C17 unit part (and C57 T3 iii): a scripted workload through the real Rock::SwapDir / Rock::IoState with a recording
+// DiskFile (DiskIO/Blocking wrapped) that logs every disk write; then, for any prefix of the write list (optionally with a
+// partially applied next write), the image is materialised, the real rebuild runs, and every object is read back through
+// the real read path (Store::Controller::find -> Rock::SwapDir::get, storeOpen/storeRead -> Rock::IoState::read_) with the
+// swap-in validation of Store::UnpackHitSwapMeta.
+//
+//   W <id> <slotSize> <op>...      op := put:<obj>:<ver>:<bodyLen> | del:<obj>
+//        runs the ops on a fresh db; writes <dir>.writes (binary log) ; prints the write list and what every op did
+//   P <id> <slotSize> <k> <cut> <nobj> [set:<slot>:<field>:<value>]...
+//        image = zeros + writes 1..k + the first <cut> bytes of write k+1, then header mutations (C57 T3 iii);
+//        rebuild; print index + what a hit on every object 1..nobj serves
 #include "squid.h"
-#include <iostream>
-#include <string>
-#include <vector>
-void runWorkload(const std::vector<std::string> &t, const std::string &) { std::cout << "{\"id\":\"" << t.at(1) << "\",\"error\":\"not built\"}\n"; }
+#include "base/TextException.h"
+#include "DiskIO/DiskFile.h"
+#include "DiskIO/DiskIOModule.h"
+#include "DiskIO/DiskIOStrategy.h"
+#include "DiskIO/IORequestor.h"
+#include "DiskIO/ReadRequest.h"
+#include "DiskIO/WriteRequest.h"
+#include "fs/rock/RockDbCell.h"
+#include "fs/rock/RockSwapDir.h"
+#include "globals.h"
+#include "HttpReply.h"
+#include "MemObject.h"
+#include "RequestFlags.h"
+#include "Store.h"
+#include "store/Controller.h"
+#include "store/SwapMetaIn.h"
+#include "StoreIOState.h"
+#include "uhelp.h"
+#include "u_rock.h"
+
+#include <fcntl.h>
+#include <sys/stat.h>
+#include <unistd.h>
+
+namespace {
+
+struct Wr { int64_t off; std::string data; int op; };
+std::vector<Wr> Log;
+int CurOp = -1;
+bool Recording = false;
+
+/// DiskIO/Blocking file that remembers what it was asked to write
+class RecFile : public DiskFile
+{
+public:
+    explicit RecFile(const RefCount<DiskFile> &f): inner(f) {}
+    void configure(const Config &c) override { inner->configure(c); }
+    void open(int flags, mode_t mode, RefCount<IORequestor> cb) override { inner->open(flags, mode, cb); }
+    void create(int flags, mode_t mode, RefCount<IORequestor> cb) override { inner->create(flags, mode, cb); }
+    void read(ReadRequest *r) override { inner->read(r); }
+    void write(WriteRequest *r) override {
+        if (Recording)
+            Log.push_back({int64_t(r->offset), std::string(r->buf, r->len), CurOp});
+        inner->write(r);
+    }
+    void close() override { inner->close(); }
+    bool canRead() const override { return inner->canRead(); }
+    bool canWrite() const override { return inner->canWrite(); }
+    int getFD() const override { return inner->getFD(); }
+    bool error() const override { return inner->error(); }
+    bool ioInProgress() const override { return inner->ioInProgress(); }
+private:
+    RefCount<DiskFile> inner;
+};
+
+class RecStrategy : public DiskIOStrategy
+{
+public:
+    explicit RecStrategy(DiskIOStrategy *s): io(s) {}
+    ~RecStrategy() override { delete io; }
+    bool shedLoad() override { return io->shedLoad(); }
+    int load() override { return io->load(); }
+    RefCount<DiskFile> newFile(char const *path) override { return new RecFile(io->newFile(path)); }
+    void sync() override { io->sync(); }
+    bool unlinkdUseful() const override { return io->unlinkdUseful(); }
+    void unlinkFile(char const *p) override { io->unlinkFile(p); }
+    int callback() override { return io->callback(); }
+    void init() override { io->init(); }
+private:
+    DiskIOStrategy *io;
+};
+
+class RecModule : public DiskIOModule
+{
+public:
+    explicit RecModule(DiskIOModule *m): real(m) {}
+    void init() override {}
+    void gracefulShutdown() override {}
+    DiskIOStrategy *createStrategy() override { return new RecStrategy(real->createStrategy()); }
+    char const *type() const override { return "Blocking"; }
+private:
+    DiskIOModule *real;
+};
+
+void installRecorder()
+{
+    static bool done = false;
+    if (done)
+        return;
+    done = true;
+    auto &mods = const_cast<std::vector<DiskIOModule *> &>(DiskIOModule::Modules());
+    for (auto &m : mods)
+        if (strcasecmp(m->type(), "Blocking") == 0) {
+            m = new RecModule(m);
+            return;
+        }
+}
+
+std::string urlOf(int obj) { return "http://u.example/obj" + std::to_string(obj); }
+unsigned char bodyByte(int obj, int ver, size_t i) { return (unsigned char)((i + 17u * ver + 101u * obj + (i >> 9)) % 251u); }
+
+struct OpRes { std::string kind; int obj = 0, ver = 0; long len = 0; std::string status; int firstSeq = 0, lastSeq = 0; };
+
+/// as TestRock::addEntry, with a body
+std::string putObject(int obj, int ver, long len)
+{
+    RequestFlags flags;
+    flags.cachable.support();
+    StoreEntry *const pe = storeCreateEntry(urlOf(obj).c_str(), urlOf(obj).c_str(), flags, Http::METHOD_GET);
+    auto &rep = pe->mem().adjustableBaseReply();
+    const std::string reason = "v" + std::to_string(obj) + "." + std::to_string(ver);
+    rep.setHeaders(Http::scOkay, reason.c_str(), "application/octet-stream", len, -1, squid_curtime + 100000);
+    pe->setPublicKey();
+    pe->buffer();
+    pe->mem().freshestReply().packHeadersUsingSlowPacker(*pe);
+    std::string body(size_t(len), '\0');
+    for (size_t i = 0; i < body.size(); ++i)
+        body[i] = char(bodyByte(obj, ver, i));
+    for (size_t at = 0; at < body.size(); at += 4096)
+        pe->append(body.data() + at, std::min<size_t>(4096, body.size() - at));
+    pe->flush();
+    pe->timestampsSet();
+    pe->complete();
+    pe->swapOut();
+    URock::RunLoop();
+    const auto st = pe->swap_status;
+    pe->unlock("u_rock put");
+    return st == SWAPOUT_DONE ? "done" : st == SWAPOUT_WRITING ? "writing" : st == SWAPOUT_FAILED ? "failed" : "none";
+}
+
+std::string delObject(int obj)
+{
+    StoreEntry *const e = storeGetPublic(urlOf(obj).c_str(), Http::METHOD_GET);
+    if (!e)
+        return "absent";
+    e->release();
+    URock::RunLoop();
+    return "released";
+}
+
+std::string hdrJson(const Rock::DbCellHeader &h, const std::vector<std::array<uint64_t, 2>> &keys)
+{
+    int k = 0;
+    for (size_t i = 0; i < keys.size(); ++i)
+        if (keys[i][0] == h.key[0] && keys[i][1] == h.key[1])
+            k = int(i) + 1;
+    std::ostringstream os;
+    os << "\"key\":" << k << ",\"ver\":" << h.version << ",\"first\":" << h.firstSlot << ",\"next\":" << h.nextSlot
+       << ",\"pay\":" << h.payloadSize << ",\"esz\":" << h.entrySize;
+    return os.str();
+}
+
+/// what the swap meta prefix at p says (independent little parser: only to describe the image to the spec)
+std::string metaJson(const char *p, size_t n, const std::vector<std::array<uint64_t, 2>> &keys)
+{
+    if (n < 5 || p[0] != 0x03)
+        return "\"mok\":false,\"mkey\":0,\"msz\":0,\"mhl\":0,\"mpriv\":false";
+    int total = 0;
+    memcpy(&total, p + 1, 4);
+    if (total < 5 || size_t(total) > n)
+        return "\"mok\":false,\"mkey\":0,\"msz\":0,\"mhl\":0,\"mpriv\":false";
+    int mkey = 0; uint64_t msz = 0; unsigned flags = 0; bool ok = true;
+    for (size_t at = 5; at < size_t(total);) {
+        if (at + 5 > size_t(total)) { ok = false; break; }
+        const char type = p[at]; int len = 0; memcpy(&len, p + at + 1, 4);
+        if (len < 0 || at + 5 + size_t(len) > size_t(total)) { ok = false; break; }
+        const char *v = p + at + 5;
+        if (type == 3 && len == 16) {
+            uint64_t k[2]; memcpy(k, v, 16);
+            for (size_t i = 0; i < keys.size(); ++i) if (keys[i][0] == k[0] && keys[i][1] == k[1]) mkey = int(i) + 1;
+            if (!mkey) mkey = 99; // a key, but none of the workload's
+        } else if (type == 9 && len == 44) {
+            memcpy(&msz, v + 32, 8);
+            uint16_t f = 0; memcpy(&f, v + 42, 2); flags = f;
+        }
+        at += 5 + size_t(len);
+    }
+    std::ostringstream os;
+    os << "\"mok\":" << U::B(ok) << ",\"mkey\":" << mkey << ",\"msz\":" << msz << ",\"mhl\":" << total << ",\"mpriv\":" << U::B((flags & 128) != 0);
+    return os.str();
+}
+
+std::vector<std::array<uint64_t, 2>> objKeys(int nobj)
+{
+    std::vector<std::array<uint64_t, 2>> keys;
+    for (int o = 1; o <= nobj; ++o) {
+        const cache_key *k = storeKeyPublic(urlOf(o).c_str(), Http::METHOD_GET);
+        uint64_t kk[2]; memcpy(kk, k, 16);
+        keys.push_back({kk[0], kk[1]});
+    }
+    return keys;
+}
+
+void saveLog(const std::string &path)
+{
+    FILE *f = fopen(path.c_str(), "wb");
+    if (!f) return;
+    for (const auto &w : Log) {
+        const int64_t n = int64_t(w.data.size());
+        fwrite(&w.off, 8, 1, f); fwrite(&n, 8, 1, f); fwrite(w.data.data(), 1, w.data.size(), f);
+    }
+    fclose(f);
+}
+
+std::vector<Wr> loadLog(const std::string &path)
+{
+    std::vector<Wr> out;
+    FILE *f = fopen(path.c_str(), "rb");
+    if (!f) return out;
+    int64_t off = 0, n = 0;
+    while (fread(&off, 8, 1, f) == 1 && fread(&n, 8, 1, f) == 1) {
+        std::string d(size_t(n), '\0');
+        if (fread(&d[0], 1, size_t(n), f) != size_t(n)) break;
+        out.push_back({off, d, 0});
+    }
+    fclose(f);
+    return out;
+}
+
+// ---- read back ------------------------------------------------------------------------------------------------------------
+struct ReadCtx { CBDATA_CLASS(ReadCtx); public: ReadCtx() {} ssize_t got = -2; bool closed = false; };
+CBDATA_CLASS_INIT(ReadCtx);
+void readDone(void *d, const char *, ssize_t len, StoreIOState::Pointer) { static_cast<ReadCtx *>(d)->got = len; }
+void closeDone(void *d, int, StoreIOState::Pointer) { static_cast<ReadCtx *>(d)->closed = true; }
+
+/// what a hit on obj serves after the restart
+std::string serve(int obj)
+{
+    std::ostringstream os;
+    os << "{\"obj\":" << obj;
+    StoreEntry *e = nullptr;
+    try {
+        e = storeGetPublic(urlOf(obj).c_str(), Http::METHOD_GET);
+    } catch (const std::exception &ex) {
+        os << ",\"hit\":false,\"why\":\"find threw: " << U::Esc(ex.what()) << "\"}";
+        return os.str();
+    }
+    if (!e) { os << ",\"hit\":false,\"why\":\"miss\"}"; return os.str(); }
+    e->lock("u_rock serve");
+    const uint64_t total = e->swap_file_sz;
+    os << ",\"sfs\":" << total;
+    std::string data;
+    std::string why;
+    ReadCtx *rc = new ReadCtx;
+    StoreIOState::Pointer sio = storeOpen(e, closeDone, rc);
+    if (sio == nullptr)
+        why = "storeOpen failed";
+    else {
+        std::vector<char> buf(65536);
+        while (data.size() < total) {
+            rc->got = -2;
+            storeRead(sio, buf.data(), buf.size(), off_t(data.size()), readDone, rc);
+            if (rc->got == -2)
+                URock::RunLoop();
+            if (rc->got <= 0) { why = rc->got == -2 ? "read never completed" : rc->got == 0 ? "short: read returned 0" : "read error"; break; }
+            data.append(buf.data(), size_t(rc->got));
+        }
+        storeClose(sio, StoreIOState::readerDone);
+        URock::RunLoop();
+    }
+    bool served = false;
+    if (why.empty()) {
+        try {
+            // what store_client::readHeader does with the first bytes of a swapped-in entry
+            Store::UnpackHitSwapMeta(data.data(), ssize_t(std::min<size_t>(data.size(), 4096)), *e);
+            served = true;
+        } catch (const std::exception &ex) {
+            why = std::string("swap meta rejected: ") + ex.what();
+        } catch (...) {
+            why = "swap meta rejected";
+        }
+    }
+    if (!served) {
+        os << ",\"hit\":false,\"why\":\"" << U::Esc(why) << "\",\"read\":" << data.size() << "}";
+    } else {
+        const size_t hs = e->mem().swap_hdr_sz;
+        const std::string msg = data.substr(std::min(hs, data.size()));
+        // project the HTTP message: version from the reason phrase, body after the header terminator
+        int ho = 0, hv = 0;
+        const auto sp = msg.find(" v");
+        if (msg.compare(0, 5, "HTTP/") == 0 && sp != std::string::npos)
+            sscanf(msg.c_str() + sp + 2, "%d.%d", &ho, &hv);
+        const auto eoh = msg.find("\r\n\r\n");
+        long blen = -1; bool intact = false; long clen = -1;
+        if (eoh != std::string::npos) {
+            const std::string body = msg.substr(eoh + 4);
+            blen = long(body.size());
+            intact = true;
+            for (size_t i = 0; i < body.size(); ++i)
+                if ((unsigned char)body[i] != bodyByte(ho, hv, i)) { intact = false; break; }
+            const auto cl = msg.find("Content-Length: ");
+            if (cl != std::string::npos && cl < eoh) clen = atol(msg.c_str() + cl + 16);
+        }
+        os << ",\"hit\":true,\"hobj\":" << ho << ",\"ver\":" << hv << ",\"len\":" << blen << ",\"clen\":" << clen << ",\"intact\":" << U::B(intact && ho == obj) << "}";
+    }
+    e->unlock("u_rock serve");
+    return os.str();
+}
+
+} // namespace
+
+void runWorkload(const std::vector<std::string> &t, const std::string &dir)
+{
+    const std::string id = t.at(1);
+    URock::SetCase(id);
+    installRecorder();
+    const std::string logPath = dir + ".writes";
+    const int64_t slotSize = atoll(t.at(2).c_str());
+    const std::string file = dir + "/rock";
+
+    if (t[0] == "W") {
+        unlink(file.c_str());
+        Log.clear();
+        auto made = URock::SetUp(slotSize, 8 * slotSize);
+        const int n = int(made.store->slotLimitActual());
+        std::string crash = URock::Rebuild();
+        std::vector<OpRes> res;
+        int nobj = 0;
+        Recording = true;
+        for (size_t i = 3; i < t.size() && crash.empty(); ++i) {
+            OpRes r;
+            CurOp = int(res.size());
+            char kind[8] = "";
+            int obj = 0, ver = 0; long len = 0;
+            sscanf(t[i].c_str(), "%3[a-z]:%d:%d:%ld", kind, &obj, &ver, &len);
+            r.kind = kind; r.obj = obj; r.ver = ver; r.len = len;
+            nobj = std::max(nobj, obj);
+            r.firstSeq = int(Log.size()) + 1;
+            try {
+                r.status = r.kind == "put" ? putObject(obj, ver, len) : delObject(obj);
+            } catch (const std::exception &ex) {
+                crash = std::string("exception: ") + ex.what();
+            }
+            r.lastSeq = int(Log.size());
+            res.push_back(r);
+        }
+        Recording = false;
+        saveLog(logPath);
+        const auto keys = objKeys(nobj);
+        std::cout << "{\"id\":\"" << id << "\",\"n\":" << n << ",\"slot_size\":" << slotSize << ",\"crash\":\"" << U::Esc(crash) << "\",\"kf\":[";
+        for (size_t i = 0; i < keys.size(); ++i)
+            std::cout << (i ? "," : "") << int((keys[i][0] + keys[i][1]) % uint64_t(n));
+        std::cout << "],\"ops\":[";
+        for (size_t i = 0; i < res.size(); ++i)
+            std::cout << (i ? "," : "") << "{\"op\":\"" << res[i].kind << "\",\"obj\":" << res[i].obj << ",\"ver\":" << res[i].ver << ",\"len\":" << res[i].len
+                      << ",\"status\":\"" << res[i].status << "\",\"first_seq\":" << res[i].firstSeq << ",\"last_seq\":" << res[i].lastSeq << "}";
+        std::cout << "],\"writes\":[";
+        for (size_t i = 0; i < Log.size(); ++i) {
+            const auto &w = Log[i];
+            Rock::DbCellHeader h;
+            if (w.data.size() >= sizeof(h)) memcpy(&h, w.data.data(), sizeof(h));
+            const int64_t slot = (w.off - 16384) / slotSize;
+            std::cout << (i ? "," : "") << "{\"seq\":" << i + 1 << ",\"op\":" << w.op << ",\"off\":" << w.off << ",\"len\":" << w.data.size()
+                      << ",\"slot\":" << slot << ",\"aligned\":" << U::B((w.off - 16384) % slotSize == 0) << "," << hdrJson(h, keys) << ","
+                      << metaJson(w.data.data() + sizeof(h), w.data.size() - sizeof(h), keys) << "}";
+        }
+        std::cout << "],\"after\":{" << URock::WalkIndex(*made.store, n, keys) << "}}" << std::endl;
+        _exit(0); // StoreEntry objects of the workload still refer to this SwapDir: do not reuse the process
+    }
+
+    // P: materialise a crash image and restart
+    const int k = atoi(t.at(3).c_str());
+    const long cut = atol(t.at(4).c_str());
+    const int nobj = atoi(t.at(5).c_str());
+    const auto log = loadLog(logPath);
+    if (k > int(log.size())) { std::cout << "{\"id\":\"" << id << "\",\"error\":\"k beyond the log\"}\n"; return; }
+    {
+        const int fd = open(file.c_str(), O_RDWR | O_CREAT | O_TRUNC, 0600);
+        if (fd < 0 || ftruncate(fd, 1024 * 1024) != 0) { std::cout << "{\"id\":\"" << id << "\",\"error\":\"image\"}\n"; return; }
+        for (int i = 0; i < k; ++i)
+            if (pwrite(fd, log[i].data.data(), log[i].data.size(), log[i].off) < 0) {}
+        if (cut > 0 && k < int(log.size()))
+            if (pwrite(fd, log[k].data.data(), std::min<size_t>(size_t(cut), log[k].data.size()), log[k].off) < 0) {}
+        for (size_t i = 6; i < t.size(); ++i) { // set:<slot>:<field>:<value>
+            int slot = 0; char field[16] = ""; long long value = 0;
+            if (sscanf(t[i].c_str(), "set:%d:%15[a-z]:%lld", &slot, field, &value) != 3) continue;
+            Rock::DbCellHeader h;
+            const off_t off = 16384 + off_t(slot) * slotSize;
+            if (pread(fd, &h, sizeof(h), off) != ssize_t(sizeof(h))) continue;
+            const std::string f = field;
+            if (f == "first") h.firstSlot = int(value); else if (f == "next") h.nextSlot = int(value);
+            else if (f == "pay") h.payloadSize = uint32_t(value); else if (f == "esz") h.entrySize = uint64_t(value);
+            else if (f == "ver") h.version = uint32_t(value); else if (f == "keyx") h.key[0] ^= uint64_t(value);
+            else if (f == "zero") memset(&h, 0, sizeof(h));
+            else if (f == "copy") { if (pread(fd, &h, sizeof(h), 16384 + off_t(value) * slotSize) < 0) {} }
+            if (pwrite(fd, &h, sizeof(h), off) < 0) {}
+        }
+        close(fd);
+    }
+    auto made = URock::SetUp(slotSize, 8 * slotSize);
+    const int n = int(made.store->slotLimitActual());
+    const std::string crash = URock::Rebuild();
+    const auto keys = objKeys(nobj);
+    std::cout << "{\"id\":\"" << id << "\",\"n\":" << n << ",\"k\":" << k << ",\"cut\":" << cut << ",\"out\":{\"done\":" << U::B(crash.empty())
+              << ",\"crash\":\"" << U::Esc(crash) << "\",";
+    if (!crash.empty()) {
+        std::cout << "\"ent\":[],\"count\":0,\"free\":[]},\"served\":[]}" << std::endl;
+        _exit(78);
+    }
+    // dump the slot headers of the image (for mutated images the spec needs to know what is on the disk)
+    std::string served;
+    for (int o = 1; o <= nobj; ++o)
+        served += (o > 1 ? "," : "") + serve(o);
+    std::cout << URock::WalkIndex(*made.store, n, keys) << "},\"served\":[" << served << "],\"slots\":[";
+    {
+        const int fd = open(file.c_str(), O_RDONLY);
+        std::vector<char> buf(4096);
+        for (int s = 0; s < n; ++s) {
+            const ssize_t got = pread(fd, buf.data(), buf.size(), 16384 + off_t(s) * slotSize);
+            Rock::DbCellHeader h;
+            if (got >= ssize_t(sizeof(h))) memcpy(&h, buf.data(), sizeof(h));
+            if (h.empty()) continue;
+            std::cout << (std::cout.tellp() ? "" : "") << "{\"s\":" << s << ",\"sane\":" << U::B(h.sane(size_t(slotSize), n)) << "," << hdrJson(h, keys) << ","
+                      << metaJson(buf.data() + sizeof(h), got > ssize_t(sizeof(h)) ? size_t(got) - sizeof(h) : 0, keys) << "},";
+        }
+        close(fd);
+    }
+    std::cout << "null]}" << std::endl;
+    _exit(0); // entries handed out by serve() still refer to this SwapDir
+}
